@@ -6,6 +6,7 @@ CONSTANTS Callers = {c1, c2}
  FreshKey = FALSE
  MaxJunk = 2
  MaxClose = 0
+ MaxBad = 0
  Kinds = {"obj"}
  Dev = {"AbortContainerOnItemError"}
 INVARIANTS WireIdsIncrease SeqNoRules OwnResult AcceptedNeverResent SaltPersisted NoStallNotify NoStallDeliver AckedAll
